@@ -136,6 +136,19 @@ def gen(rng, tier):
                 j = rng.randrange(len(s_priv))
                 s_bad = s_priv[:j] + rng.choice("0OIl+/ é") + s_priv[j + 1:]
             yield Case("deserkey", [hx(pv), hx(sv), tx(s_bad)], "neg-text")
+    # the ed25519 SLIP-0010 classes: 32-byte private keys round-trip; every other private payload size the deserialiser lets through
+    # (the 110-byte Khovratovich-Law size: 64 key bytes, e.g. a libsodium "seed || public key" pair) is refused by the key layer
+    for i in range(6 if tier == "quick" else 120):
+        c = ("ed25519", "ed25519blake2b")[i % 2]
+        pv, sv = kvs[i % len(kvs)]
+        kb = rb(32, i % 3 == 0)
+        depth, idx, fp, cc = (0, 0, bytes(4), rb(32)) if i % 4 == 0 else (rng.randrange(1, 256), rand_index(rng) | 0x80000000, rb(4), rb(32))
+        yield Case("fromxkey", [c, hx(pv), hx(sv), tx(ser(sv, depth, fp, idx, cc, b"\x00" + kb))], "fromx-priv-ed")
+        pub = CLS[c].FromPrivateKey(kb).PublicKey().RawCompressed().ToBytes()
+        yield Case("fromxkey", [c, hx(pv), hx(sv), tx(ser(pv, depth, fp, idx, cc, pub))], "fromx-pub-ed")
+        for tail in (pub[1:], rb(32), bytes(32)):
+            yield Case("fromxkey", [c, hx(pv), hx(sv), tx(ser(sv, depth, fp, idx, cc, b"\x00" + kb + tail))], "neg-ed-64-byte-key")
+        yield Case("fromxkey", [c, hx(pv), hx(sv), tx(ser(pv, depth, fp, idx, cc, pub + bytes(32)))], "neg-ed-long-pub")
     # round trip through derived nodes for every key-net-version pair
     for pv, sv in kvs:
         seed = rand_seed(rng)
@@ -191,6 +204,46 @@ def relations(rng, tier, rpt):
                             "input": "%s key=%s depth=%d index=%d fp=%s" % (c, kb.hex(), d, ix, fp.hex()), "impl_output": str(got), "model_output": str((want_pub, want_pub, want_prv)),
                             "no_failing_input": False})
                 break
+    # option switches are per coin configuration: setting the alternate version bytes of ONE Litecoin configuration changes the strings of
+    # that configuration only (the others keep printing and parsing their standard versions), and restoring it restores everything
+    from bip_utils import Bip44, Bip49, Bip84, Bip44Coins, Bip49Coins, Bip84Coins, Bip44ConfGetter, Bip49ConfGetter, Bip84ConfGetter
+    fams = [(Bip44, Bip44Coins, Bip44ConfGetter), (Bip49, Bip49Coins, Bip49ConfGetter), (Bip84, Bip84Coins, Bip84ConfGetter)]
+    lite = [(cls, coin, getter.GetConfig(coin)) for cls, en, getter in fams for coin in en if hasattr(getter.GetConfig(coin), "UseAlternateKeyNetVersions")]
+    others = [(Bip44, Bip44Coins.BITCOIN, None), (Bip49, Bip49Coins.BITCOIN, None)]
+    seed_t = rand_seed(rng)
+
+    def strings():
+        return {"%s.%s" % (cls.__name__, coin.name): (cls.FromSeed(seed_t, coin).PrivateKey().ToExtended(), cls.FromSeed(seed_t, coin).PublicKey().ToExtended())
+                for cls, coin, _ in lite + others}
+    base = strings()
+    nt = 0
+    for cls, coin, conf in lite:
+        name = "%s.%s" % (cls.__name__, coin.name)
+        conf.UseAlternateKeyNetVersions(True)
+        try:
+            during = strings()
+            nt += 1
+            for k in base:
+                if k != name and during[k] != base[k]:
+                    bad.append({"property": "C05", "entry_point": "UseAlternateKeyNetVersions", "request_lines": [],
+                                "relation": "setting the alternate key-net versions of %s changes the extended keys of %s" % (name, k),
+                                "input": seed_t.hex(), "impl_output": str(during[k]), "model_output": str(base[k]), "no_failing_input": False})
+            for k in base:
+                if k != name:
+                    c2, coin2 = next((c_, co) for c_, co, _ in lite + others if "%s.%s" % (c_.__name__, co.name) == k)
+                    try:
+                        if c2.FromExtendedKey(base[k][0], coin2).PrivateKey().ToExtended() != base[k][0]:
+                            raise ValueError("different string")
+                    except Exception as ex:  # noqa
+                        bad.append({"property": "C05", "entry_point": "%s.FromExtendedKey" % c2.__name__, "request_lines": [],
+                                    "relation": "with the alternate versions of %s set, %s no longer parses and reprints its own standard extended key" % (name, k),
+                                    "input": base[k][0], "impl_output": type(ex).__name__, "model_output": base[k][0], "no_failing_input": False})
+        finally:
+            conf.UseAlternateKeyNetVersions(False)
+        if strings() != base:
+            bad.append({"property": "C05", "entry_point": "UseAlternateKeyNetVersions", "request_lines": [], "relation": "restoring the switch of %s does not restore every extended key" % name,
+                        "input": seed_t.hex(), "impl_output": "differs", "model_output": "as before", "no_failing_input": False})
+    rpt.extra["toggle_isolation_checks"] = nt
     # SLIP-32 form: layout against the standard (depth || path || chain code || key in Bech32 under xprv/xpub), parse, re-serialise;
     # keys with leading zero bytes and long paths included
     from bip_utils import Slip32PrivateKeySerializer, Slip32PublicKeySerializer, Slip32KeyDeserializer, Secp256k1PrivateKey, Ed25519PrivateKey, Bip32Path
